@@ -8,6 +8,7 @@ Documents are trees of Assignment / Block / Section nodes of any depth and width
 lists, inline maps and literal zones; schemas are arbitrary.
 -/
 import Octave.Lemmas.Repair
+import Octave.Lemmas.Numeral
 import Octave.Spec.AsciiEnv
 import Octave.Model.Tools
 import Octave.Gen.Repair
@@ -83,6 +84,18 @@ theorem C11_changes {env : Env} {sch : Schema} {ls ls' : List (Str × Val)} {log
     cases es with
     | nil => exact Or.inl (steps_nil_eq hs)
     | cons e es => exact Or.inr ⟨e :: es, by simp, hs⟩
+
+/-- What "the numeral denotes the integer" means, independently of the scanning code: after the
+Unicode→ASCII transformation and trimming of blanks the text is `[+-] digit ('_'? digit)*` with at most
+4300 digits (`DigitGroups`, a declarative grammar), and the integer is the signed decimal value of the
+digits.  (For decimal fractions the double itself is an external value — `Env.floatVal`.) -/
+theorem C11_int_numeral (env : Env) (s : Str) (n : Int) :
+    Numeral.pyInt env s = some n ↔
+      ∃ ds, DigitGroups (Numeral.splitSign (Numeral.trimC (s.map (Numeral.transform env)))).2 ds ∧
+        ds.length ≤ Numeral.maxStrDigits ∧
+        n = (if (Numeral.splitSign (Numeral.trimC (s.map (Numeral.transform env)))).1
+              then -(Int.ofNat (Numeral.ofDigits ds)) else Int.ofNat (Numeral.ofDigits ds)) :=
+  pyInt_spec env s n
 
 /-! ## the new value satisfies the motivating constraint -/
 
@@ -265,6 +278,10 @@ example : Step asciiEnv (chainOf exSchema "STATUS".toList) (.enum ["ACTIVE".toLi
   Step.casefold _ _ _ (by decide) (by decide) (by decide) (by decide) (by decide)
 /-- hypothesis of `C11_forbidden_enum`: an ambiguous value. -/
 example : (ciMatches asciiEnv ["Ab".toList, "AB".toList, "c".toList] "ab".toList).length ≠ 1 := by decide
+/-- `C11_int_numeral` on a numeral with blanks, sign, underscore. -/
+example : Numeral.pyInt asciiEnv " -4_2 ".toList = some (-42) := by decide
+example : DigitGroups "4_2".toList [4, 2] :=
+  DigitGroups.under '4' 4 _ _ (by decide) (DigitGroups.one '2' 2 (by decide))
 /-- hypothesis of `C11_forbidden_nonfinite`: overflow. -/
 example : Numeral.pyFloat asciiEnv "1e309".toList = some ⟨"inf".toList, false⟩ := by decide
 
